@@ -107,6 +107,12 @@ pub fn run_limited(exe: &Path, args: &[&str], cwd: &Path, mem_kib: u64, timeout:
 /// `/usr/bin/time`; None when it could not be measured, e.g. after a timeout). The whole process group
 /// is killed on a timeout.
 pub fn run_measured(exe: &Path, args: &[&str], cwd: &Path, mem_kib: u64, timeout: Duration) -> (Run, Option<u64>) {
+    let args: Vec<std::ffi::OsString> = args.iter().map(|a| std::ffi::OsString::from(*a)).collect();
+    run_measured_os(exe, &args, cwd, mem_kib, timeout)
+}
+
+/// `run_measured` with arguments that need not be UTF-8 (file names).
+pub fn run_measured_os(exe: &Path, args: &[std::ffi::OsString], cwd: &Path, mem_kib: u64, timeout: Duration) -> (Run, Option<u64>) {
     use std::os::unix::process::{CommandExt, ExitStatusExt};
     static N: std::sync::atomic::AtomicU64 = std::sync::atomic::AtomicU64::new(0);
     let rss_file = cwd.join(format!(".rss-{}-{}", std::process::id(), N.fetch_add(1, std::sync::atomic::Ordering::Relaxed)));
